@@ -233,3 +233,114 @@ mut("c03-quiet-verify-early-eq", ["C03"], [(BM, '''	if *prevCheckpoint != cfhead
 	}
 
 	lastHeader := cfheaders.PrevFilterHeader''')], [])
+
+# ---- C05 ----
+Q = "query.go"
+mut("c05-header-mismatch-fallthrough", ["C05"], [(Q, '''	if filterHeader != curHeader {
+		return noProgress
+	}''', '''	if filterHeader != curHeader {
+		log.Warnf("filter header mismatch")
+	}''')], ["C05.G1"])
+mut("c05-cache-before-compare", ["C05"], [(Q, '''	if filterHeader != curHeader {
+		return noProgress
+	}''', '''	_, _ = q.cs.putFilterToCache(&response.BlockHash, filterdb.RegularFilter, filter)
+	if filterHeader != curHeader {
+		return noProgress
+	}''')], ["C05.G1"])
+mut("c05-ignore-decode-error", ["C05"], [(Q, '''	if err != nil {
+		// Malformed filter data. We can ignore this message.
+		return noProgress
+	}''', '''	if err != nil {
+		// Malformed filter data. We can ignore this message.
+		log.Warnf("malformed filter: %v", err)
+	}''')], ["C05.G1"])
+mut("c05-prev-header-off-by-one", ["C05"], [(Q, "prevHeader = q.filterHeaders[i-1]", "prevHeader = q.filterHeaders[i]")], ["C05.V1"])
+mut("c05-filter-ancestors-range", ["C05"], [(Q, '''	filterHeaders, _, err := s.RegFilterHeaders.FetchHeaderAncestors(
+		numFilters, stopHash,
+	)''', '''	filterHeaders, _, err := s.RegFilterHeaders.FetchHeaderAncestors(
+		numFilters+1, stopHash,
+	)''')], ["C05.V1"])
+mut("c05-index-from-zero", ["C05"], [(Q, "for i := 1; i < len(blockHeaders); i++ {", "for i := 0; i < len(blockHeaders); i++ {")], ["C05.V1"])
+mut("c05-new-cache-writer", ["C05"], [], ["C05.W1"], new_files=[("zz_cachewriter.go", '''package neutrino
+
+import (
+	"github.com/btcsuite/btcd/btcutil/v2/gcs"
+	"github.com/btcsuite/btcd/chainhash/v2"
+	"github.com/lightninglabs/neutrino/filterdb"
+)
+
+func (s *ChainService) zzPrime(h *chainhash.Hash, f *gcs.Filter) {
+	_, _ = s.putFilterToCache(h, filterdb.RegularFilter, f)
+}
+''')])
+mut("c05-return-unvalidated", ["C05"], [(Q, '''	if filterQuery.targetFilter == nil {
+		return nil, ErrFilterFetchFailed
+	}''', '''	if filterQuery.targetFilter == nil {
+		return gcs.FromNBytes(builder.DefaultP, builder.DefaultM, nil)
+	}''')], ["C05.V2"])
+
+# ---- C06 ----
+mut("c06-skip-witness", ["C06"], [(Q, '''		if err := blockchain.ValidateWitnessCommitment(
+			block,
+		); err != nil {''', '''		if err := error(nil); err != nil {''')], ["C06.G1"])
+mut("c06-sanity-no-ban", ["C06"], [(Q, '''			// Ban and disconnect the peer.
+			err = s.BanPeer(peer, banman.InvalidBlock)
+			if err != nil {
+				log.Errorf("Unable to ban peer %v: %v", peer,
+					err)
+			}
+
+			return noProgress''', '''			return noProgress''')], ["C06.O1"])
+mut("c06-compare-prevblock", ["C06"], [(Q, "if response.BlockHash() != blockHash {", "if response.Header.PrevBlock != blockHash {")], ["C06.G1"])
+mut("c06-sanity-log-only", ["C06"], [(Q, '''			err = s.BanPeer(peer, banman.InvalidBlock)
+			if err != nil {
+				log.Errorf("Unable to ban peer %v: %v", peer,
+					err)
+			}
+
+			return noProgress
+		}
+
+		if err := blockchain.ValidateWitnessCommitment(''', '''			err = s.BanPeer(peer, banman.InvalidBlock)
+			if err != nil {
+				log.Errorf("Unable to ban peer %v: %v", peer,
+					err)
+			}
+		}
+
+		if err := blockchain.ValidateWitnessCommitment(''')], ["C06.G1"])
+mut("c06-cache-unvalidated", ["C06"], [(Q, '''	if foundBlock == nil {
+		return nil, fmt.Errorf("couldn't retrieve block %s from "+
+			"network", blockHash)
+	}
+''', '')], ["C06.V1"])
+mut("c06-quiet-wrapper", ["C06"], [(Q, '''		if err := blockchain.ValidateWitnessCommitment(
+			block,
+		); err != nil {''', '''		if err := zzValidateWitness(block); err != nil {'''), (Q, '''// sendTransaction sends a transaction to all peers. It returns an error if any
+// peer rejects the transaction.''', '''func zzValidateWitness(b *btcutil.Block) error {
+	if b == nil {
+		return fmt.Errorf("nil block")
+	}
+	if err := blockchain.ValidateWitnessCommitment(b); err != nil {
+		return fmt.Errorf("witness: %w", err)
+	}
+	return nil
+}
+
+// sendTransaction sends a transaction to all peers. It returns an error if any
+// peer rejects the transaction.''')], [])
+mut("c06-bad-wrapper", ["C06"], [(Q, '''		if err := blockchain.ValidateWitnessCommitment(
+			block,
+		); err != nil {''', '''		if err := zzValidateWitness(block); err != nil {'''), (Q, '''// sendTransaction sends a transaction to all peers. It returns an error if any
+// peer rejects the transaction.''', '''func zzValidateWitness(b *btcutil.Block) error {
+	if len(b.MsgBlock().Transactions) == 1 {
+		return nil
+	}
+	if err := blockchain.ValidateWitnessCommitment(b); err != nil {
+		return fmt.Errorf("witness: %w", err)
+	}
+	return nil
+}
+
+// sendTransaction sends a transaction to all peers. It returns an error if any
+// peer rejects the transaction.''')], ["C06.G1"])
